@@ -40,6 +40,10 @@ class PlotModel:
         self.steps = []         # step number per level
         # header cosmetics (all observed in real assets)
         self.extra_ratio = 0    # extra entries on the refinement-ratio line
+        self.stale_file = False
+        self.nanskip = False    # min/max tables skip NaN cells (what a running `<` comparison does)
+        self.idx_shift = 0      # on disk every cell index is lowered by idx_shift * 2**level (an index space
+                                # that does not start at 0; the model itself stays 0-based)
         self.stale_levels = 0   # stale level blocks after the last level (example_plt_2d)
         self.float_fmt = "g17"  # or "repr"
         self.version = "HyperCLaw-V1.1"
@@ -91,9 +95,17 @@ class PlotModel:
             pos = 0
             for b in bids:
                 out[b] = (f, pos)
-                lo, hi = self.boxes[lv][b]
+                lo, hi = self.disk_box(lv, b)
                 pos += len(fab_header(lo, hi, nf)) + 8 * nf * int(np.prod(self.box_shape(lv, b)))
         return out
+
+    def disk_box(self, lv, b):
+        """(lo, hi) of a box as written to disk."""
+        lo, hi = self.boxes[lv][b]
+        k = getattr(self, "idx_shift", 0) * 2 ** lv
+        if not k:
+            return lo, hi
+        return tuple(v - k for v in lo), tuple(v - k for v in hi)
 
     def layout_class(self, lv):
         """'mono' if in every file offsets increase with header order, else 'nonmono'."""
@@ -108,17 +120,18 @@ class PlotModel:
     # ------------------------------------------------------------------ min/max
     def minmax_rows(self, lv):
         mins, maxs = [], []
+        fmin, fmax = (np.nanmin, np.nanmax) if getattr(self, "nanskip", False) else (np.min, np.max)
         for arr in self.data[lv]:
             flat = arr.reshape(-1, arr.shape[-1])
-            mins.append(np.min(flat, axis=0))
-            maxs.append(np.max(flat, axis=0))
+            mins.append(fmin(flat, axis=0))
+            maxs.append(fmax(flat, axis=0))
         return mins, maxs
 
     # ------------------------------------------------------------------ pure operations
     def copy_meta(self):
         m = PlotModel()
         for k in ("ndims", "time", "geo_low", "geo_high", "nlev", "steps", "version",
-                  "float_fmt"):
+                  "float_fmt", "idx_shift"):
             v = getattr(self, k)
             setattr(m, k, list(v) if isinstance(v, list) else v)
         m.dx = [list(d) for d in self.dx]
@@ -270,7 +283,14 @@ def gen_mesh(src, ndims=None, max_levels=3, max_blocks0=3, max_boxes=24, bfs=(2,
     m.nlev = src.draw(f"{tag}.levels", min_levels, max_levels)
     bf = src.choice(f"{tag}.bf", list(bfs))
     minb = -(-min_cells0 // bf)
-    nb0 = [src.draw(f"{tag}.blocks0.{d}", minb, max(minb, max_blocks0)) for d in range(nd)]
+    # "uniform" meshes: every box of every level is k blocks wide in every direction, but refined patches
+    # start on ANY block (aligned on the blocking factor, not on the box size)
+    uniform = src.flag(f"{tag}.uniform", 8)
+    if uniform:
+        ku = src.choice(f"{tag}.uniform.k", [2, 3])
+        nb0 = [ku * src.draw(f"{tag}.blocks0.{d}", max(1, -(-minb // ku)), 2) for d in range(nd)]
+    else:
+        nb0 = [src.draw(f"{tag}.blocks0.{d}", minb, max(minb, max_blocks0)) for d in range(nd)]
     # geometry
     if aniso and src.flag(f"{tag}.aniso"):
         cell0 = [src.choice(f"{tag}.dx0.{d}", [0.125, 0.25, 0.5, 0.0625, 0.1, 0.3, 1.0 / 3, 1.0 / 12, 1.0 / 7])
@@ -290,10 +310,28 @@ def gen_mesh(src, ndims=None, max_levels=3, max_blocks0=3, max_boxes=24, bfs=(2,
                                         -0.25, 1e22, 5e-324, 0.1 + 0.2])
     step0 = src.choice(f"{tag}.step", [0, 20, 70100])
     m.steps = [step0] * m.nlev
-    # levels: region as boolean block arrays
-    region = np.ones(tuple(nb0), dtype=bool)
     m.grid_sizes.append(tuple(n0))
     m.dx.append([length[d] / n0[d] for d in range(nd)])
+    if uniform:
+        lo_b, hi_b = [0] * nd, [n - 1 for n in nb0]
+        for lv in range(m.nlev):
+            if lv:
+                a_lo = [2 * v for v in lo_b]
+                size = [2 * (h - l + 1) for l, h in zip(lo_b, hi_b)]
+                ext = [ku * src.draw(f"{tag}.L{lv}.uext.{d}", 1, min(2, size[d] // ku)) for d in range(nd)]
+                lo_b = [a_lo[d] + src.draw(f"{tag}.L{lv}.ustart.{d}", 0, size[d] - ext[d]) for d in range(nd)]
+                hi_b = [lo_b[d] + ext[d] - 1 for d in range(nd)]
+                m.grid_sizes.append(tuple(2 * v for v in m.grid_sizes[-1]))
+                m.dx.append([x / 2 for x in m.dx[-1]])
+            import itertools
+            tiles = list(itertools.product(*[range(lo_b[d], hi_b[d] + 1, ku) for d in range(nd)]))
+            if src.flag(f"{tag}.L{lv}.shuffle"):
+                rng = np.random.default_rng(src.draw(f"{tag}.L{lv}.shseed", 0, 9999))
+                tiles = [tiles[i] for i in rng.permutation(len(tiles))]
+            m.boxes.append([(tuple(int(t) * bf for t in tl), tuple((int(t) + ku) * bf - 1 for t in tl)) for tl in tiles])
+        return m
+    # levels: region as boolean block arrays
+    region = np.ones(tuple(nb0), dtype=bool)
     total_cells = 0
     levels_region = [region]
     for lv in range(1, m.nlev):
@@ -586,6 +624,8 @@ def gen_world(src, tag="w", special_ok=True, scale=(), scale_rate=24, lowprec_ok
 def gen_cosmetics(src, m, tag="w"):
     m.extra_ratio = src.draw(f"{tag}.extra_ratio", 0, 1)
     m.stale_levels = src.draw(f"{tag}.stale", 0, 1)
+    # a binary file no level header refers to (left behind by an earlier write into the same directory)
+    m.stale_file = src.flag(f"{tag}.stale_file", 10)
     m.float_fmt = src.choice(f"{tag}.ffmt", ["g17", "repr"])
     return m
 
@@ -617,8 +657,9 @@ def write_plotfile(m, path, minmax_override=None):
         h.write(" ".join(["2"] * nr) + (" " if nr else "") + "\n")
         doms = []
         for lv in range(m.nlev):
-            doms.append("(" + fmt_idx([0] * nd) + " " +
-                        fmt_idx([s - 1 for s in m.grid_sizes[lv]]) + " " + fmt_idx([0] * nd) + ")")
+            k = getattr(m, "idx_shift", 0) * 2 ** lv
+            doms.append("(" + fmt_idx([-k] * nd) + " " +
+                        fmt_idx([s - 1 - k for s in m.grid_sizes[lv]]) + " " + fmt_idx([0] * nd) + ")")
         h.write(" ".join(doms) + " \n")
         h.write(" ".join(str(s) for s in m.steps) + " \n")
         for lv in range(m.nlev):
@@ -648,7 +689,7 @@ def write_plotfile(m, path, minmax_override=None):
         for f, bids in m.file_order(lv).items():
             with open(os.path.join(ldir, f), "wb") as bf:
                 for b in bids:
-                    lo, hi = m.boxes[lv][b]
+                    lo, hi = m.disk_box(lv, b)
                     hd = fab_header(lo, hi, nf)
                     assert bf.tell() == offs[b][1]
                     bf.write(hd)
@@ -657,6 +698,11 @@ def write_plotfile(m, path, minmax_override=None):
                     bf.write(raw)
                     info[b] = (os.path.join(ldir, f), offs[b][1], len(hd), len(raw))
         disk[lv] = info
+        if getattr(m, "stale_file", False) and lv == (m.nlev - 1) // 2:
+            lo, hi = m.disk_box(lv, 0)
+            with open(os.path.join(ldir, "Cell_D_00077"), "wb") as bf:
+                bf.write(fab_header(lo, hi, nf))
+                bf.write(np.full(int(np.prod(m.box_shape(lv, 0))) * nf, 7.7e77).tobytes())
         if minmax_override is not None:
             mins, maxs = minmax_override[lv]
         else:
@@ -666,7 +712,8 @@ def write_plotfile(m, path, minmax_override=None):
             ch.write(f"{nf}\n")
             ch.write("0\n")
             ch.write(f"({len(m.boxes[lv])} 0\n")
-            for lo, hi in m.boxes[lv]:
+            for b in range(len(m.boxes[lv])):
+                lo, hi = m.disk_box(lv, b)
                 ch.write("(" + fmt_idx(lo) + " " + fmt_idx(hi) + " " + fmt_idx([0] * nd) + ")\n")
             ch.write(")\n")
             ch.write(f"{len(m.boxes[lv])}\n")
